@@ -13,26 +13,64 @@ import (
 
 // ---------- stores ----------
 
-// window resolves a destination operand `v`, `v[:]`, `v[lo:]`, `v[:hi]`, `v[lo:hi]` over a variable v.
-func (t *tr) window(e ast.Expr) (id *ast.Ident, lo, hi string, ok bool) {
+// placeObj: the variable, or the synthetic variable of a field path, that an expression denotes (nil if neither).
+func (t *tr) placeObj(e ast.Expr) (types.Object, string) {
+	switch x := e.(type) {
+	case *ast.ParenExpr:
+		return t.placeObj(x.X)
+	case *ast.Ident:
+		if o := t.objOf(x); o != nil {
+			if _, ok := o.(*types.Var); ok {
+				return o, x.Name
+			}
+		}
+	case *ast.SelectorExpr:
+		if _, ok := t.u.info.Selections[x]; ok && t.isFieldPath(x) {
+			v := t.pathVar(x)
+			return v, v.Name()
+		}
+	}
+	return nil, ""
+}
+
+// window resolves a destination operand `v`, `v[:]`, `v[lo:]`, `v[:hi]`, `v[lo:hi]` over a variable or field path v.
+func (t *tr) window(e ast.Expr) (obj types.Object, cur, lo, hi string, ok bool) {
 	switch x := e.(type) {
 	case *ast.ParenExpr:
 		return t.window(x.X)
-	case *ast.Ident:
+	case *ast.Ident, *ast.SelectorExpr:
 		if k, _ := t.kindOf(x); k != kBytes {
 			break
 		}
+		if vw := t.viewOf(x); vw != nil {
+			return vw.root, t.f.env[vw.root], t.f.env[vw.lo], t.f.env[vw.hi], true
+		}
+		o, _ := t.placeObj(x)
+		if o == nil {
+			break
+		}
 		b := t.expr(x)
-		return x, "(0 : Int)", "(GoSem.len " + b + ")", true
+		return o, b, "(0 : Int)", "(GoSem.len " + b + ")", true
 	case *ast.SliceExpr:
-		base, isId := x.X.(*ast.Ident)
-		if !isId || x.Slice3 {
+		if vw := t.viewOf(x.X); vw != nil && !x.Slice3 {
+			blo := t.f.env[vw.lo]
+			lo, hi = blo, t.f.env[vw.hi]
+			if x.Low != nil {
+				lo = "(" + blo + " + " + t.intExpr(x.Low) + ")"
+			}
+			if x.High != nil {
+				hi = "(" + blo + " + " + t.intExpr(x.High) + ")"
+			}
+			return vw.root, t.f.env[vw.root], lo, hi, true
+		}
+		o, _ := t.placeObj(x.X)
+		if o == nil || x.Slice3 {
 			break
 		}
-		if k, _ := t.kindOf(base); k != kBytes {
+		if k, _ := t.kindOf(x.X); k != kBytes {
 			break
 		}
-		b := t.expr(base)
+		b := t.expr(x.X)
 		lo, hi = "(0 : Int)", "(GoSem.len "+b+")"
 		if x.Low != nil {
 			lo = t.intExpr(x.Low)
@@ -40,10 +78,10 @@ func (t *tr) window(e ast.Expr) (id *ast.Ident, lo, hi string, ok bool) {
 		if x.High != nil {
 			hi = t.intExpr(x.High)
 		}
-		return base, lo, hi, true
+		return o, b, lo, hi, true
 	}
 	t.fail(e, "store destination %s is not a (slice of a) variable", t.src(e))
-	return nil, "", "", false
+	return nil, "", "", "", false
 }
 
 // setVar records a new version of a Go variable.
@@ -53,26 +91,33 @@ func (t *tr) setVar(id *ast.Ident, ty types.Type, val string) {
 		t.fail(id, "unresolved variable %s", id.Name)
 		return
 	}
+	t.setObj(obj, id.Name, ty, val, id)
+}
+
+func (t *tr) setObj(obj types.Object, name string, ty types.Type, val string, n ast.Node) {
 	lt := t.leanType(ty)
 	if lt == "UNSUPPORTED_TYPE" {
-		t.fail(id, "variable %s of type %s", id.Name, ty)
+		t.fail(n, "variable %s of type %s", name, ty)
 		return
 	}
-	t.f.env[obj] = t.define(id.Name, lt, val)
+	t.f.env[obj] = t.define(name, lt, val)
 }
 
 // store: the variable's CONTENT is modified in place (visible through aliases → refuse if any)
-func (t *tr) store(id *ast.Ident, val string) {
-	obj := t.objOf(id)
+func (t *tr) store(obj types.Object, n ast.Node, val string) {
 	if len(t.f.alias[obj]) > 0 {
-		t.fail(id, "store into %s, which shares memory with another translated variable", id.Name)
+		t.fail(n, "store into %s, which shares memory with another translated variable", obj.Name())
 		return
 	}
 	if v, ok := obj.(*types.Var); ok && v.Parent() == t.u.pkg.Scope() {
-		t.fail(id, "store into package variable %s", id.Name)
+		t.fail(n, "store into package variable %s", obj.Name())
 		return
 	}
-	t.setVar(id, t.typeOf(id), val)
+	if _, isStr := obj.Type().Underlying().(*types.Basic); isStr {
+		t.fail(n, "store into the string %s", obj.Name())
+		return
+	}
+	t.setObj(obj, obj.Name(), obj.Type(), val, n)
 }
 
 func (t *tr) noteAlias(lhs *ast.Ident, rhs ast.Expr) {
@@ -119,7 +164,7 @@ func sameExpr(t *tr, a, b ast.Expr) bool { return t.src(a) == t.src(b) }
 func (t *tr) callStmt(c *ast.CallExpr) bool {
 	if id, ok := c.Fun.(*ast.Ident); ok && id.Name == "copy" {
 		if _, isB := t.objOf(id).(*types.Builtin); isB && len(c.Args) == 2 {
-			dst, lo, hi, ok := t.window(c.Args[0])
+			dst, cur, lo, hi, ok := t.window(c.Args[0])
 			if !ok {
 				return true
 			}
@@ -127,18 +172,18 @@ func (t *tr) callStmt(c *ast.CallExpr) bool {
 				t.fail(c, "copy from %s", t.typeOf(c.Args[1]))
 				return true
 			}
-			if strings.Contains(" "+t.src(c.Args[1])+" ", dst.Name) && rootIs(t, c.Args[1], dst) {
+			if rootIs(t, c.Args[1], dst) {
 				t.fail(c, "copy within one variable")
 				return true
 			}
-			t.store(dst, fmt.Sprintf("GoSem.copyInto %s %s %s %s", t.expr(dst), lo, hi, t.expr(c.Args[1])))
+			t.store(dst, c, fmt.Sprintf("GoSem.copyInto %s %s %s %s", cur, lo, hi, t.expr(c.Args[1])))
 			return true
 		}
 	}
 	pkg, recv, name := t.stdCallee(c.Fun)
 	if pkg == "encoding/binary" && (recv == "BigEndian" || recv == "LittleEndian") {
 		if f, ok := endianFns[name]; ok && f.op == "put" {
-			dst, lo, hi, ok := t.window(c.Args[0])
+			dst, cur, lo, hi, ok := t.window(c.Args[0])
 			if !ok {
 				return true
 			}
@@ -146,12 +191,12 @@ func (t *tr) callStmt(c *ast.CallExpr) bool {
 			if recv == "LittleEndian" {
 				e = "LE"
 			}
-			t.store(dst, fmt.Sprintf("GoSem.put%s %d %s %s %s %s", e, f.w, t.expr(dst), lo, hi, t.expr(c.Args[1])))
+			t.store(dst, c, fmt.Sprintf("GoSem.put%s %d %s %s %s %s", e, f.w, cur, lo, hi, t.expr(c.Args[1])))
 			return true
 		}
 	}
 	if pkg == "crypto/subtle" && name == "XORBytes" && len(c.Args) == 3 {
-		dst, lo, hi, ok := t.window(c.Args[0])
+		dst, cur, lo, hi, ok := t.window(c.Args[0])
 		if !ok {
 			return true
 		}
@@ -162,17 +207,119 @@ func (t *tr) callStmt(c *ast.CallExpr) bool {
 				return true
 			}
 		}
-		t.store(dst, fmt.Sprintf("GoSem.xorInto %s %s %s %s %s", t.expr(dst), lo, hi, t.expr(c.Args[1]), t.expr(c.Args[2])))
+		t.store(dst, c, fmt.Sprintf("GoSem.xorInto %s %s %s %s %s", cur, lo, hi, t.expr(c.Args[1]), t.expr(c.Args[2])))
+		return true
+	}
+	if o, ok := t.f.blockops[t.src(c.Fun)]; ok && len(c.Args) == 2 {
+		// cipher.Block Encrypt / Decrypt (dst, src): one 16-byte block of src into the first 16 bytes of dst
+		dst, cur, lo, hi, ok := t.window(c.Args[0])
+		if !ok {
+			return true
+		}
+		if rootIs(t, c.Args[1], dst) && !sameExpr(t, c.Args[1], c.Args[0]) {
+			t.fail(c, "block operand %s overlaps the destination inexactly", t.src(c.Args[1]))
+			return true
+		}
+		t.store(dst, c, fmt.Sprintf("GoSem.blockInto 16 %s %s %s %s %s", leanName(o.name), cur, lo, hi, t.expr(c.Args[1])))
+		return true
+	}
+	if o, ok := t.f.applyops[t.src(c.Fun)]; ok && len(c.Args) == 2 {
+		// a length-preserving keyed transformation (cipher.Stream.XORKeyStream(dst, src) …): len(src) bytes into dst
+		dst, cur, lo, hi, ok := t.window(c.Args[0])
+		if !ok {
+			return true
+		}
+		if rootIs(t, c.Args[1], dst) && !sameExpr(t, c.Args[1], c.Args[0]) {
+			t.fail(c, "operand %s overlaps the destination inexactly", t.src(c.Args[1]))
+			return true
+		}
+		fn := leanName(o.name)
+		if sel, ok := c.Fun.(*ast.SelectorExpr); ok {
+			if kr, _ := t.kindOf(sel.X); kr != kBad && kr != kErr {
+				fn = "(" + fn + " " + t.expr(sel.X) + ")" // the receiver's representation is the key of the transformation
+			}
+		}
+		t.store(dst, c, fmt.Sprintf("GoSem.applyInto %s %s %s %s %s", fn, cur, lo, hi, t.expr(c.Args[1])))
+		return true
+	}
+	if o, ok := t.f.fillops[t.src(c.Fun)]; ok && len(c.Args) == 1 {
+		// fresh bytes (random.MustRand(dst), rand.Read(dst)): the whole window is overwritten
+		dst, cur, lo, hi, ok := t.window(c.Args[0])
+		if !ok {
+			return true
+		}
+		t.store(dst, c, fmt.Sprintf("GoSem.copyInto %s %s %s (%s (%s - %s))", cur, lo, hi, leanName(o.name), hi, lo))
+		return true
+	}
+	if id, ok := c.Fun.(*ast.Ident); ok {
+		if idx, isProc := t.u.procs[id.Name]; isProc && t.objOf(id) != nil && t.objOf(id).Parent() == t.u.pkg.Scope() {
+			// call of a translated procedure: its value is the new content of the one slice argument it writes
+			if idx >= len(c.Args) {
+				t.fail(c, "procedure call arity")
+				return true
+			}
+			dst, cur, lo, hi, ok := t.window(c.Args[idx])
+			if !ok {
+				return true
+			}
+			var args []string
+			whole := false
+			for i, a := range c.Args {
+				if i == idx {
+					if se, isSl := a.(*ast.SliceExpr); !isSl || (se.Low == nil && se.High == nil) {
+						whole = true
+						args = append(args, cur)
+					} else {
+						args = append(args, fmt.Sprintf("(GoSem.slice %s %s %s)", cur, lo, hi))
+					}
+					continue
+				}
+				if rootIs(t, a, dst) {
+					t.fail(c, "procedure argument %s overlaps the written argument", t.src(a))
+					return true
+				}
+				args = append(args, t.expr(a))
+			}
+			call := t.qualified(id.Name) + " " + strings.Join(args, " ")
+			if whole {
+				t.store(dst, c, call)
+			} else {
+				t.store(dst, c, fmt.Sprintf("GoSem.copyInto %s %s %s (%s)", cur, lo, hi, call))
+			}
+			return true
+		}
+	}
+	if sg := t.calleeSig(c); sg != nil && sg.proc {
+		// P(…, dst, …) of an emitted procedure; a dropped error result leaves the poison value in dst on failure
+		name := calleeName(c)
+		dst, cur, lo, hi, call, whole, ok := t.procCall(name, sg, c)
+		if !ok {
+			return true
+		}
+		if sg.optional {
+			call = "(" + call + ".getD [])"
+		}
+		if whole {
+			t.store(dst, c, call)
+		} else {
+			t.store(dst, c, fmt.Sprintf("GoSem.copyInto %s %s %s %s", cur, lo, hi, call))
+		}
 		return true
 	}
 	return false
 }
 
-func rootIs(t *tr, e ast.Expr, id *ast.Ident) bool {
+func rootIs(t *tr, e ast.Expr, obj types.Object) bool {
 	for {
 		switch x := e.(type) {
 		case *ast.Ident:
-			return t.objOf(x) == t.objOf(id)
+			if vw := t.f.views[t.objOf(x)]; vw != nil {
+				return vw.root == obj
+			}
+			return t.objOf(x) == obj
+		case *ast.SelectorExpr:
+			o, _ := t.placeObj(x)
+			return o != nil && o == obj
 		case *ast.SliceExpr:
 			e = x.X
 		case *ast.ParenExpr:
@@ -201,7 +348,7 @@ func terminates(stmts []ast.Stmt) bool {
 		return false
 	}
 	switch x := stmts[len(stmts)-1].(type) {
-	case *ast.ReturnStmt:
+	case *ast.ReturnStmt, *ast.BranchStmt:
 		return true
 	case *ast.ExprStmt:
 		return isPanic(x)
@@ -262,13 +409,39 @@ func (t *tr) isNonNilErr(e ast.Expr) bool {
 
 func (t *tr) ret(x *ast.ReturnStmt) string {
 	f := t.f
+	if f.stateful {
+		return t.statefulRet(x, f.goSig)
+	}
 	if len(x.Results) == 0 {
 		if f.outs != nil && !f.optional && f.nres == 0 {
 			return f.outs()
 		}
 		return t.fail(x, "bare return")
 	}
+	if f.outs != nil && f.optional && f.nres == 0 && len(x.Results) == 1 {
+		// a procedure that can fail: `return nil` is the written parameters, `return err` is none
+		if id, ok := x.Results[0].(*ast.Ident); ok && id.Name == "nil" {
+			return "some " + f.outs()
+		}
+		if t.isNonNilErr(x.Results[0]) {
+			return "none"
+		}
+		return t.fail(x, "returned error %s is not known to be nil or non-nil", t.src(x.Results[0]))
+	}
 	res := x.Results
+	if f.optional && len(res) == 1 && !t.isNonNilErr(res[0]) {
+		if _, isCall := res[0].(*ast.CallExpr); isCall {
+			ty := t.typeOf(res[0])
+			if tup, ok := ty.(*types.Tuple); ok && tup.Len() == f.nres+1 {
+				if ke, _ := classify(tup.At(tup.Len() - 1).Type()); ke == kErr {
+					return t.expr(res[0]) // the callee's Option value is the result
+				}
+			}
+			if ke, _ := classify(ty); ke == kErr && f.nres == 0 {
+				return t.expr(res[0])
+			}
+		}
+	}
 	if f.optional {
 		errE := res[len(res)-1]
 		res = res[:len(res)-1]
@@ -320,6 +493,21 @@ func (t *tr) errGuard(s ast.Stmt, errObj types.Object) bool {
 		return true
 	}
 	return t.isNonNilErr(last)
+}
+
+// panicGuard recognises `if err != nil { panic(…) }`
+func (t *tr) panicGuard(s ast.Stmt, errObj types.Object) bool {
+	is, ok := s.(*ast.IfStmt)
+	if !ok || is.Init != nil || is.Else != nil || len(is.Body.List) != 1 || !isPanic(is.Body.List[0]) {
+		return false
+	}
+	be, ok := is.Cond.(*ast.BinaryExpr)
+	if !ok || be.Op != token.NEQ {
+		return false
+	}
+	a, ok1 := be.X.(*ast.Ident)
+	b, ok2 := be.Y.(*ast.Ident)
+	return ok1 && ok2 && t.objOf(a) == errObj && b.Name == "nil"
 }
 
 func ind(n int) string { return strings.Repeat("  ", n) }
@@ -390,10 +578,122 @@ func (t *tr) block(stmts []ast.Stmt, depth int, k func() string) string {
 		return t.assignTo(x.X, ty, val, s, rest, depth, k)
 	case *ast.AssignStmt:
 		if x.Tok == token.DEFINE || x.Tok == token.ASSIGN {
+			if t.f.stateful && len(x.Lhs) == 1 && len(x.Rhs) == 1 {
+				if c, ok := x.Rhs[0].(*ast.CallExpr); ok && t.f.externValue[t.src(c.Fun)] {
+					// v := obj.Draw(): the value and the object's next state
+					for _, e := range t.f.externs {
+						if e.callee == t.src(c.Fun) {
+							obj := t.f.pvars[e.path]
+							cur, have := t.f.env[obj]
+							if !have || len(c.Args) != 0 {
+								return t.fail(s, "external value call %s", e.callee)
+							}
+							tmp := t.define("ext_"+e.name, t.leanType(t.typeOf(c))+" × "+t.f.typeOverride[obj], leanName(e.name)+" "+cur)
+							t.f.env[obj] = t.define(obj.Name(), t.f.typeOverride[obj], tmp+".2")
+							return t.assignTo(x.Lhs[0], t.typeOf(c), tmp+".1", s, rest, depth, k)
+						}
+					}
+				}
+			}
 			if len(x.Lhs) == 2 && len(x.Rhs) == 1 {
+				if ie, ok := x.Rhs[0].(*ast.IndexExpr); ok {
+					if kd, _ := t.kindOf(ie.X); kd == kSet {
+						// v, found := m[k] on a set: both are membership
+						mem := fmt.Sprintf("(decide (%s ∈ %s))", t.expr(ie.Index), t.expr(ie.X))
+						for _, l := range x.Lhs {
+							if id, ok := l.(*ast.Ident); ok && id.Name != "_" {
+								t.setVar(id, types.Typ[types.Bool], mem)
+							}
+						}
+						return t.block(rest, depth, k)
+					}
+				}
+			}
+			if t.f.stateful && len(x.Rhs) == 1 && len(x.Lhs) >= 2 {
+				if c, isCall := x.Rhs[0].(*ast.CallExpr); isCall {
+					if tup, ok := t.typeOf(c).(*types.Tuple); ok {
+						t.tupleAssignStateful(x, c, tup, s)
+						return t.block(rest, depth, k)
+					}
+				}
+			}
+			if !t.f.stateful && len(x.Lhs) == 1 && len(x.Rhs) == 1 {
+				if ke, _ := t.kindOf(x.Rhs[0]); ke == kErr {
+					if _, isCall := x.Rhs[0].(*ast.CallExpr); isCall {
+						return t.bindOption(x, nil, rest, depth, k)
+					}
+				}
+			}
+			if !t.f.stateful && len(x.Lhs) == 2 && len(x.Rhs) == 1 {
 				if tup, ok := t.typeOf(x.Rhs[0]).(*types.Tuple); ok && tup.Len() == 2 {
 					if ke, _ := classify(tup.At(1).Type()); ke == kErr {
+						if c, isCall := x.Rhs[0].(*ast.CallExpr); isCall {
+							if _, isFill := t.f.fillops[t.src(c.Fun)]; isFill {
+								// _, err := rand.Read(dst); if err != nil { return … }: the source of fresh bytes is assumed not to fail
+								eid, ok := x.Lhs[1].(*ast.Ident)
+								if !ok || len(rest) == 0 || !(t.errGuard(rest[0], t.objOf(eid)) || t.panicGuard(rest[0], t.objOf(eid))) {
+									return t.fail(s, "a fill call must be followed by `if err != nil { return …, err }` or `{ panic(err) }`")
+								}
+								if vid, ok := x.Lhs[0].(*ast.Ident); !ok || vid.Name != "_" {
+									return t.fail(s, "the byte count of a fill call is not translated")
+								}
+								t.callStmt(c)
+								return t.block(rest[1:], depth, k)
+							}
+						}
+						if c, isCall := x.Rhs[0].(*ast.CallExpr); isCall && t.f.abstract[t.src(c.Fun)] {
+							// x, err := <constructor of an abstract object>(…); if err != nil { return … }:
+							// the object carries no value and the constructor is assumed to succeed
+							if kv, _ := classify(tup.At(0).Type()); kv != kBad {
+								return t.fail(s, "-abstract callee %s returns a value of a translated type", t.src(c.Fun))
+							}
+							eid, ok := x.Lhs[1].(*ast.Ident)
+							if !ok || len(rest) == 0 || !t.errGuard(rest[0], t.objOf(eid)) {
+								return t.fail(s, "an abstract constructor must be followed by `if err != nil { return …, err }`")
+							}
+							return t.block(rest[1:], depth, k)
+						}
 						return t.bindOption(x, tup, rest, depth, k)
+					}
+				}
+			}
+			if len(x.Lhs) == 1 && len(x.Rhs) == 1 && x.Tok == token.DEFINE {
+				if id, ok := x.Lhs[0].(*ast.Ident); ok && t.structLit(id, x.Rhs[0]) {
+					return t.block(rest, depth, k)
+				}
+				if id, ok := x.Lhs[0].(*ast.Ident); ok {
+					if _, isView := t.f.viewVars[t.objOf(id)]; isView {
+						rhs := x.Rhs[0]
+						for {
+							if p, ok := rhs.(*ast.ParenExpr); ok {
+								rhs = p.X
+								continue
+							}
+							break
+						}
+						t.defineView(id, rhs.(*ast.SliceExpr))
+						return t.block(rest, depth, k)
+					}
+				}
+			}
+			if len(x.Lhs) == 1 && len(x.Rhs) == 1 && x.Tok == token.ASSIGN {
+				if id, ok := x.Lhs[0].(*ast.Ident); ok && t.resliceView(id, x.Rhs[0], s) {
+					return t.block(rest, depth, k)
+				}
+			}
+			if len(x.Lhs) == 1 && len(x.Rhs) == 1 {
+				// n := copy(dst, src): the store, then the number of bytes copied
+				if c, ok := x.Rhs[0].(*ast.CallExpr); ok {
+					if cid, ok := c.Fun.(*ast.Ident); ok && cid.Name == "copy" && len(c.Args) == 2 {
+						if _, isB := t.objOf(cid).(*types.Builtin); isB {
+							_, _, lo, hi, okw := t.window(c.Args[0])
+							if !okw {
+								return t.fail(s, "copy destination")
+							}
+							cnt := fmt.Sprintf("(min (%s - %s) (GoSem.len %s))", hi, lo, t.expr(c.Args[1]))
+							t.callStmt(c)
+							return t.assignTo(x.Lhs[0], t.typeOf(c), cnt, s, rest, depth, k)
+						}
 					}
 				}
 			}
@@ -405,11 +705,23 @@ func (t *tr) block(stmts []ast.Stmt, depth int, k func() string) string {
 				if id, ok := x.Lhs[i].(*ast.Ident); ok && id.Name == "_" {
 					continue
 				}
-				vals[i] = t.expr(x.Rhs[i])
+				if lt := t.typeOf(x.Lhs[i]); lt != nil && t.f.stateful {
+					vals[i] = t.exprAs(x.Rhs[i], lt)
+				} else {
+					vals[i] = t.expr(x.Rhs[i])
+				}
 			}
 			if len(x.Lhs) == 1 {
 				if id, ok := x.Lhs[0].(*ast.Ident); ok && id.Name != "_" {
+					if kd, _ := classify(t.typeOf(id)); kd == kBytes && x.Tok == token.ASSIGN && len(t.f.alias[t.objOf(id)]) > 0 {
+						return t.fail(s, "re-assignment of %s, which shares memory with another translated variable", id.Name)
+					}
+					r := t.assignTo(x.Lhs[0], t.typeOf(x.Rhs[0]), vals[0], s, nil, depth, func() string { return "" })
+					if strings.Contains(r, "UNSUPPORTED") {
+						return r
+					}
 					t.noteAliasAssign(id, x.Rhs[0])
+					return t.block(rest, depth, k)
 				}
 				return t.assignTo(x.Lhs[0], t.typeOf(x.Rhs[0]), vals[0], s, rest, depth, k)
 			}
@@ -445,15 +757,82 @@ func (t *tr) block(stmts []ast.Stmt, depth int, k func() string) string {
 		}
 		return t.fail(s, "expression statement %s", t.src(x.X))
 	case *ast.ReturnStmt:
-		return ind(depth) + t.ret(x)
+		return ind(depth) + t.wrapRet(t.ret(x))
+	case *ast.BranchStmt:
+		if x.Label != nil || len(t.f.loops) == 0 {
+			return t.fail(s, "%s outside a translated loop or with a label", x.Tok)
+		}
+		st := t.f.loops[len(t.f.loops)-1].state()
+		switch x.Tok {
+		case token.BREAK:
+			return ind(depth) + "GoSem.Step.brk " + st
+		case token.CONTINUE:
+			return ind(depth) + "GoSem.Step.next " + st
+		}
+		return t.fail(s, "branch statement %s", x.Tok)
 	case *ast.IfStmt:
 		return t.ifStmt(x, rest, depth, k)
 	case *ast.SwitchStmt:
 		return t.switchStmt(x, rest, depth, k)
 	case *ast.ForStmt:
 		return t.forStmt(x, rest, depth, k)
+	case *ast.RangeStmt:
+		return t.rangeStmt(x, rest, depth, k)
 	}
 	return t.fail(s, "statement %T", s)
+}
+
+// structLit: `x := &T{f: e, …}` / `x := T{…}` makes x a local struct object; its fields of a supported type become
+// locations x.f (zero unless given), fields of other types are abstract and their initialisers are not looked at.
+func (t *tr) structLit(id *ast.Ident, rhs ast.Expr) bool {
+	if u, ok := rhs.(*ast.UnaryExpr); ok && u.Op == token.AND {
+		rhs = u.X
+	}
+	cl, ok := rhs.(*ast.CompositeLit)
+	if !ok {
+		return false
+	}
+	ty := t.typeOf(cl)
+	st, ok := ty.Underlying().(*types.Struct)
+	if !ok {
+		return false
+	}
+	obj := t.objOf(id)
+	fields := structFields(ty)
+	given := map[string]ast.Expr{}
+	for i, el := range cl.Elts {
+		if kv, ok := el.(*ast.KeyValueExpr); ok {
+			if kid, ok := kv.Key.(*ast.Ident); ok {
+				given[kid.Name] = kv.Value
+			}
+		} else if i < st.NumFields() {
+			given[st.Field(i).Name()] = el
+		}
+	}
+	for _, fld := range fields {
+		v := t.pathVarNamed(id.Name+"."+fld.Name(), id.Pos(), fld.Type())
+		var val string
+		if e, ok := given[fld.Name()]; ok {
+			val = t.expr(e)
+		} else {
+			kd, _ := classify(fld.Type())
+			switch kd {
+			case kBytes:
+				if arr, ok := fld.Type().Underlying().(*types.Array); ok {
+					val = fmt.Sprintf("GoSem.makeBytes (%d : Int)", arr.Len())
+				} else {
+					val = "([] : Bytes)"
+				}
+			case kBool:
+				val = "false"
+			default:
+				val = "0"
+			}
+		}
+		t.setObj(v, v.Name(), fld.Type(), val, id)
+	}
+	t.f.objRoots[obj] = fields
+	return true
 }
 
 func (t *tr) noteAliasAssign(id *ast.Ident, rhs ast.Expr) {
@@ -473,11 +852,8 @@ func (t *tr) assignTo(lhs ast.Expr, ty types.Type, val string, s ast.Stmt, rest 
 		if v, ok := obj.(*types.Var); ok && v.Parent() == t.u.pkg.Scope() {
 			return t.fail(s, "assignment to package variable %s", lv.Name)
 		}
-		// a re-assigned slice variable no longer aliases what it did
-		if kd, _ := classify(t.typeOf(lv)); kd == kBytes {
-			if as, isAssign := s.(*ast.AssignStmt); isAssign && as.Tok == token.ASSIGN && len(t.f.alias[obj]) > 0 {
-				return t.fail(s, "re-assignment of %s, which shares memory with another translated variable", lv.Name)
-			}
+		if t.liveViewRoot(obj) {
+			return t.fail(s, "re-assignment of %s while a view of it is live", lv.Name)
 		}
 		vt := t.typeOf(lv)
 		if vt == nil {
@@ -486,17 +862,47 @@ func (t *tr) assignTo(lhs ast.Expr, ty types.Type, val string, s ast.Stmt, rest 
 		t.setVar(lv, vt, val)
 		return t.block(rest, depth, k)
 	case *ast.IndexExpr:
-		base, ok := lv.X.(*ast.Ident)
-		if !ok {
+		if kd, _ := t.kindOf(lv.X); kd == kSet {
+			// m[k] = true on a map used as a set
+			base, name := t.placeObj(lv.X)
+			as, isAssign := s.(*ast.AssignStmt)
+			if base == nil || !isAssign || as.Tok != token.ASSIGN || len(as.Rhs) != 1 {
+				return t.fail(s, "store into a set")
+			}
+			if tv := t.u.info.Types[as.Rhs[0]]; tv.Value == nil || tv.Value.String() != "true" {
+				return t.fail(s, "a map[K]bool is translated as a set: only `m[k] = true` stores are supported")
+			}
+			t.setObj(base, name, t.typeOf(lv.X), fmt.Sprintf("(%s :: %s)", t.expr(lv.Index), t.expr(lv.X)), s)
+			return t.block(rest, depth, k)
+		}
+		if vw := t.viewOf(lv.X); vw != nil {
+			t.store(vw.root, s, fmt.Sprintf("GoSem.setAtV %s %s %s %s %s", t.f.env[vw.root], t.f.env[vw.lo], t.f.env[vw.hi], t.intExpr(lv.Index), val))
+			return t.block(rest, depth, k)
+		}
+		base, _ := t.placeObj(lv.X)
+		if base == nil {
 			return t.fail(s, "element store into a non-variable")
 		}
-		if kd, _ := t.kindOf(base); kd != kBytes {
-			return t.fail(s, "element store into %s", t.typeOf(base))
+		if kd, _ := t.kindOf(lv.X); kd != kBytes {
+			return t.fail(s, "element store into %s", t.typeOf(lv.X))
 		}
-		if _, isStr := t.typeOf(base).Underlying().(*types.Basic); isStr {
+		if _, isStr := t.typeOf(lv.X).Underlying().(*types.Basic); isStr {
 			return t.fail(s, "element store into a string")
 		}
-		t.store(base, fmt.Sprintf("GoSem.setAt %s %s %s", t.expr(base), t.intExpr(lv.Index), val))
+		t.store(base, s, fmt.Sprintf("GoSem.setAt %s %s %s", t.expr(lv.X), t.intExpr(lv.Index), val))
+		return t.block(rest, depth, k)
+	case *ast.SelectorExpr:
+		// assignment to a field p.f of a supported type
+		obj, name := t.placeObj(lv)
+		if obj == nil {
+			break
+		}
+		if kd, _ := t.kindOf(lv); kd == kBytes {
+			if len(t.f.alias[obj]) > 0 {
+				return t.fail(s, "re-assignment of %s, which shares memory with another translated variable", name)
+			}
+		}
+		t.setObj(obj, name, t.typeOf(lv), val, s)
 		return t.block(rest, depth, k)
 	}
 	return t.fail(s, "assignment target %s", t.src(lhs))
@@ -525,18 +931,103 @@ func (t *tr) binaryStr(X ast.Expr, op token.Token, lit string, ty types.Type, n 
 }
 
 func (t *tr) bindOption(x *ast.AssignStmt, tup *types.Tuple, rest []ast.Stmt, depth int, k func() string) string {
+	if tup == nil {
+		// err := f(…); if err != nil { return …, err }   with f : … → Option Unit
+		eid, ok := x.Lhs[0].(*ast.Ident)
+		if !ok {
+			return t.fail(x, "assignment target")
+		}
+		if len(rest) == 0 || !t.errGuard(rest[0], t.objOf(eid)) {
+			return t.fail(x, "an error result must be followed by `if err != nil { return …, err }`")
+		}
+		if c, isCall := x.Rhs[0].(*ast.CallExpr); isCall {
+			if sg := t.calleeSig(c); sg != nil && sg.proc && sg.optional {
+				// err := P(…, dst, …): on success the window dst holds the procedure's value
+				dst, cur, lo, hi, call, whole, ok := t.procCall(calleeName(c), sg, c)
+				if !ok {
+					return "(UNSUPPORTED)"
+				}
+				opt := t.define("opt_"+dst.Name(), "Option Bytes", call)
+				f := t.f
+				saved := f.binders
+				bn := leanName(dst.Name()) + "'"
+				for f.hasBinder(bn) {
+					bn += "'"
+				}
+				f.binders = append(append([]binder{}, f.binders...), binder{bn, "Bytes"})
+				if whole {
+					t.store(dst, x, bn)
+				} else {
+					t.store(dst, x, fmt.Sprintf("GoSem.copyInto %s %s %s %s", cur, lo, hi, bn))
+				}
+				body := t.block(rest[1:], depth+1, k)
+				f.binders = saved
+				return fmt.Sprintf("%s(%s).bind (fun %s =>\n%s)", ind(depth), opt, bn, body)
+			}
+		}
+		call := t.expr(x.Rhs[0])
+		opt := t.define("opt_"+eid.Name, "Option Unit", call)
+		body := t.block(rest[1:], depth+1, k)
+		if len(t.f.loops) > 0 {
+			return fmt.Sprintf("%smatch %s with\n%s| none => %s\n%s| some _ =>\n%s", ind(depth), opt, ind(depth), t.wrapRet("none"), ind(depth), body)
+		}
+		return fmt.Sprintf("%s(%s).bind (fun _ =>\n%s)", ind(depth), opt, body)
+	}
 	vid, ok1 := x.Lhs[0].(*ast.Ident)
 	eid, ok2 := x.Lhs[1].(*ast.Ident)
 	if !ok1 || !ok2 {
 		return t.fail(x, "tuple assignment target")
 	}
 	errObj := t.objOf(eid)
+	if len(rest) > 0 && t.panicGuard(rest[0], errObj) {
+		// x, err := f(…); if err != nil { panic(err) }: a failure is the poison value
+		if kd, _ := classify(tup.At(0).Type()); kd != kBytes {
+			return t.fail(x, "panic guard on a non-slice result")
+		}
+		t.setVar(vid, tup.At(0).Type(), "("+t.expr(x.Rhs[0])+").getD []")
+		return t.block(rest[1:], depth, k)
+	}
 	if len(rest) == 0 || !t.errGuard(rest[0], errObj) {
 		return t.fail(x, "a (value, error) result must be followed by `if err != nil { return …, err }`")
 	}
-	call := t.expr(x.Rhs[0])
-	opt := t.define("opt_"+vid.Name, "Option "+t.leanType(tup.At(0).Type()), call)
 	f := t.f
+	var call string
+	var ioDst types.Object
+	var ioLo, ioHi string
+	if c, isCall := x.Rhs[0].(*ast.CallExpr); isCall {
+		if o, ok := f.inouts[t.src(c.Fun)]; ok {
+			// x, err := callee(dst, args…): the callee writes the window dst and returns it (or a fresh slice when dst is empty)
+			if len(c.Args) == 0 {
+				return t.fail(x, "-inout call without a destination")
+			}
+			var id *ast.Ident
+			if i, ok := c.Args[0].(*ast.Ident); ok {
+				id = i
+			}
+			args := []string{}
+			if id != nil && id.Name == "nil" {
+				args = append(args, "([] : Bytes)")
+			} else {
+				dst, cur, lo, hi, ok := t.window(c.Args[0])
+				if !ok {
+					return "(UNSUPPORTED)"
+				}
+				ioDst, ioLo, ioHi = dst, lo, hi
+				args = append(args, fmt.Sprintf("(GoSem.slice %s %s %s)", cur, lo, hi))
+			}
+			for _, a := range c.Args[1:] {
+				if ioDst != nil && rootIs(t, a, ioDst) {
+					return t.fail(x, "-inout argument %s overlaps the destination", t.src(a))
+				}
+				args = append(args, t.expr(a))
+			}
+			call = "(" + leanName(o.name) + " " + strings.Join(args, " ") + ")"
+		}
+	}
+	if call == "" {
+		call = t.expr(x.Rhs[0])
+	}
+	opt := t.define("opt_"+vid.Name, "Option "+t.leanType(tup.At(0).Type()), call)
 	saved := f.binders
 	bn := leanName(vid.Name)
 	for f.hasBinder(bn) {
@@ -546,14 +1037,23 @@ func (t *tr) bindOption(x *ast.AssignStmt, tup *types.Tuple, rest []ast.Stmt, de
 	if vid.Name != "_" {
 		f.env[t.objOf(vid)] = bn
 	}
+	if ioDst != nil {
+		t.store(ioDst, x, fmt.Sprintf("GoSem.copyInto %s %s %s %s", f.env[ioDst], ioLo, ioHi, bn))
+	}
 	body := t.block(rest[1:], depth+1, k)
 	f.binders = saved
+	if len(t.f.loops) > 0 {
+		return fmt.Sprintf("%smatch %s with\n%s| none => %s\n%s| some %s =>\n%s", ind(depth), opt, ind(depth), t.wrapRet("none"), ind(depth), bn, body)
+	}
 	return fmt.Sprintf("%s(%s).bind (fun %s =>\n%s)", ind(depth), opt, bn, body)
 }
 
 func (t *tr) ifStmt(x *ast.IfStmt, rest []ast.Stmt, depth int, k func() string) string {
 	if x.Init != nil {
-		return t.fail(x, "if with an init statement")
+		// `if init; cond {…}`: the init statement, then the plain if (the variables are distinct objects, so the wider scope is harmless)
+		plainIf := *x
+		plainIf.Init = nil
+		return t.block(append([]ast.Stmt{x.Init, &plainIf}, rest...), depth, k)
 	}
 	c := t.cond(x.Cond)
 	var elseList []ast.Stmt
@@ -566,7 +1066,9 @@ func (t *tr) ifStmt(x *ast.IfStmt, rest []ast.Stmt, depth int, k func() string) 
 	}
 	thenT, elseT := terminates(x.Body.List), terminates(elseList)
 	pre := t.cloneEnv()
-	if !thenT && !elseT {
+	// a fall-through branch that can also leave the function (nested return) cannot be joined variable by variable:
+	// the rest of the block is then translated once per branch
+	if !thenT && !elseT && !exits(x.Body.List) && !exits(elseList) {
 		// both fall through: translate each, then join the variables they changed
 		stop := func() string { return "" }
 		t.block(x.Body.List, 0, stop)
@@ -583,7 +1085,7 @@ func (t *tr) ifStmt(x *ast.IfStmt, rest []ast.Stmt, depth int, k func() string) 
 		}
 		sort.Slice(objs, func(i, j int) bool { return objs[i].Pos() < objs[j].Pos() })
 		for _, o := range objs {
-			t.f.env[o] = t.define(o.Name(), t.leanType(o.Type()), fmt.Sprintf("if %s then %s else %s", c, envA[o], envB[o]))
+			t.f.env[o] = t.define(o.Name(), t.leanTypeOfObj(o), fmt.Sprintf("if %s then %s else %s", c, envA[o], envB[o]))
 		}
 		return t.block(rest, depth, k)
 	}
@@ -599,6 +1101,27 @@ func (t *tr) ifStmt(x *ast.IfStmt, rest []ast.Stmt, depth int, k func() string) 
 	t.f.env = cloneMap(pre)
 	b := t.block(elseS, depth+1, k)
 	return fmt.Sprintf("%sif %s then\n%s\n%selse\n%s", ind(depth), c, a, ind(depth), b)
+}
+
+// exits: the statements contain a return / break / continue / goto / panic somewhere (closures excluded)
+func exits(stmts []ast.Stmt) bool {
+	found := false
+	for _, s := range stmts {
+		ast.Inspect(s, func(n ast.Node) bool {
+			switch x := n.(type) {
+			case *ast.FuncLit:
+				return false
+			case *ast.ReturnStmt, *ast.BranchStmt:
+				found = true
+			case *ast.ExprStmt:
+				if isPanic(x) {
+					found = true
+				}
+			}
+			return true
+		})
+	}
+	return found
 }
 
 func cloneMap(m map[types.Object]string) map[types.Object]string {
@@ -655,14 +1178,20 @@ func (t *tr) switchStmt(x *ast.SwitchStmt, rest []ast.Stmt, depth int, k func() 
 	return sb.String()
 }
 
-// assignedObjs: variables written (assigned, stored into, inc/dec'ed) inside the statements
+// assignedObjs: variables and field-path locations written (assigned, stored into, inc/dec'ed) inside the statements
 func (t *tr) assignedObjs(stmts []ast.Stmt) map[types.Object]bool {
 	res := map[types.Object]bool{}
-	root := func(e ast.Expr) *ast.Ident {
+	var root func(e ast.Expr) types.Object
+	root = func(e ast.Expr) types.Object {
 		for {
 			switch x := e.(type) {
 			case *ast.Ident:
-				return x
+				return t.u.info.Uses[x]
+			case *ast.SelectorExpr:
+				if _, ok := t.u.info.Selections[x]; ok && t.isFieldPath(x) {
+					return t.pathVar(x)
+				}
+				return nil
 			case *ast.IndexExpr:
 				e = x.X
 			case *ast.SliceExpr:
@@ -675,8 +1204,16 @@ func (t *tr) assignedObjs(stmts []ast.Stmt) map[types.Object]bool {
 		}
 	}
 	mark := func(e ast.Expr) {
-		if id := root(e); id != nil {
-			if o := t.u.info.Uses[id]; o != nil {
+		if o := root(e); o != nil {
+			res[o] = true
+		}
+	}
+	// a store through a view writes its root; an assignment to a view variable moves its bounds
+	markStore := func(e ast.Expr) {
+		if o := root(e); o != nil {
+			if r, ok := t.f.viewRoot[o]; ok {
+				res[r] = true
+			} else {
 				res[o] = true
 			}
 		}
@@ -686,15 +1223,38 @@ func (t *tr) assignedObjs(stmts []ast.Stmt) map[types.Object]bool {
 			switch x := n.(type) {
 			case *ast.AssignStmt:
 				for _, l := range x.Lhs {
+					if _, isIdx := l.(*ast.IndexExpr); isIdx {
+						markStore(l)
+						continue
+					}
+					if id, ok := l.(*ast.Ident); ok {
+						if vv, ok := t.f.viewVars[t.objOf(id)]; ok {
+							res[vv[0]], res[vv[1]] = true, true
+							continue
+						}
+					}
 					mark(l)
 				}
 			case *ast.IncDecStmt:
-				mark(x.X)
+				if _, isIdx := x.X.(*ast.IndexExpr); isIdx {
+					markStore(x.X)
+				} else {
+					mark(x.X)
+				}
 			case *ast.CallExpr:
-				name := t.src(x.Fun)
-				if name == "copy" || strings.Contains(name, ".PutUint") || strings.HasSuffix(name, ".XORBytes") {
-					if len(x.Args) > 0 {
-						mark(x.Args[0])
+				if i := t.destArg(x); i >= 0 && i < len(x.Args) {
+					markStore(x.Args[i])
+				}
+				callee := t.src(x.Fun)
+				for _, e := range t.f.externs {
+					if e.callee == callee {
+						// a call on an external object advances its state; a read-like call also fills its buffer argument
+						if v := t.f.pvars[e.path]; v != nil {
+							res[v] = true
+						}
+						if t.f.externRead[callee] && len(x.Args) > 0 {
+							markStore(x.Args[len(x.Args)-1])
+						}
 					}
 				}
 			}
@@ -705,6 +1265,9 @@ func (t *tr) assignedObjs(stmts []ast.Stmt) map[types.Object]bool {
 }
 
 func (t *tr) forStmt(x *ast.ForStmt, rest []ast.Stmt, depth int, k func() string) string {
+	if !isSimpleFor(t, x) {
+		return t.loopGeneral(x, rest, depth, k)
+	}
 	// for i := 0; i < N; i++ { body }
 	init, ok1 := x.Init.(*ast.AssignStmt)
 	cnd, ok2 := x.Cond.(*ast.BinaryExpr)
@@ -769,7 +1332,7 @@ func (t *tr) forStmt(x *ast.ForStmt, rest []ast.Stmt, depth int, k func() string
 	}
 	var tys, inits []string
 	for _, o := range state {
-		tys = append(tys, t.leanType(o.Type()))
+		tys = append(tys, t.leanTypeOfObj(o))
 		inits = append(inits, t.f.env[o])
 	}
 	sigma := strings.Join(tys, " × ")
@@ -833,7 +1396,7 @@ func (t *tr) forStmt(x *ast.ForStmt, rest []ast.Stmt, depth int, k func() string
 				p += ".1"
 			}
 		}
-		f.env[o] = t.define(o.Name(), t.leanType(o.Type()), p)
+		f.env[o] = t.define(o.Name(), t.leanTypeOfObj(o), p)
 	}
 	return t.block(rest, depth, k)
 }
